@@ -200,6 +200,13 @@ fn run_line(nums: &[u64]) -> Vec<u64> {
         },
     };
 
+    let horizon: u64 = offers.iter().map(|o| o.0).max().unwrap_or(0)
+        + offers
+            .iter()
+            .map(|o| metrics.calculate_busy(&data_msg(0, o.1)).as_nanos() as u64)
+            .sum::<u64>()
+        + lat
+        + jit;
     let mut out: Vec<u64> = vec![7, (tb.len() / 2) as u64];
     for p in tb.chunks(2) {
         if p.len() == 2 {
@@ -223,7 +230,14 @@ fn run_line(nums: &[u64]) -> Vec<u64> {
     }
     drop(g_out);
 
-    let rt = Builder::seeded(seed).quiet().build(sim.freeze());
+    // The calendar queue scans bucket by bucket (default width 2.5 ms): keep the number of buckets a run
+    // walks over bounded by widening them for long horizons (C01: results do not depend on (n, t)).
+    let mut builder = Builder::seeded(seed).quiet();
+    let width = horizon / 2048;
+    if width > 2_500_000 {
+        builder = builder.cqueue_options(1028, Duration::from_nanos(width));
+    }
+    let rt = builder.build(sim.freeze());
     let res = catch_unwind(AssertUnwindSafe(|| rt.run()));
     std::panic::set_hook(Box::new(|_| {}));
     let mut s = sh.lock().unwrap();
